@@ -12,7 +12,7 @@ from .. import sp
 ID = "C11"
 META = {
     "technique": "runtime monitoring: differential monitor of parse_string's resolved field values, @string blocks and resolution metadata against a 10-line reference model over enumerated value shapes x definition placements",
-    "level_text": "Every document of one entry with 1-2 fields over the 17 stated value shapes x every list of 0-2 definitions x every before/after placement is parsed by the real entry point and compared with the model (first definition wins, bare case-sensitive identifiers only, enclosed/concatenated/undefined values keep their own content, strings unchanged, metadata lists exactly the resolved keys in order); random larger documents add duplicated and interleaved definitions.",
+    "level_text": "Every document of one entry with 1-2 fields over the 17 stated value shapes x every list of 0-2 definitions x every before/after placement is parsed by the real entry point and compared with the model (first definition wins, bare case-sensitive identifiers only, enclosed/concatenated/undefined values keep their own content, strings unchanged, metadata lists exactly the resolved keys in order); random larger documents add duplicated and interleaved definitions. Field names include the reserved-looking ID / ENTRYTYPE (entries whose key and type are macro names).",
     "level_note": "content = value with one positional enclosing layer removed (the reading of C10)",
 }
 RULE = ("case = document built from value shapes {bare defined key, bare undefined key, '{key}', '\"key\"', other case, 'key # key', number} "
@@ -62,6 +62,14 @@ def cases(tier, seed, shard, nshards):
                 if idx % nshards == shard:
                     yield {"k": "enum", "text": render(before, [fs], after)}
                 idx += 1
+    # fields NAMED like the entry's reserved read-only items, in entries whose key / type are macro names
+    for d in DEFS:
+        for v in vs:
+            for fname in ("ID", "ENTRYTYPE"):
+                for ek, et in (("s", "misc"), ("e1", "s"), (d[0], d[0])):
+                    if idx % nshards == shard:
+                        yield {"k": "enum", "text": "@string{%s = %s}\n@%s{%s, %s = %s, f0 = %s}\n" % (d[0], d[1], et, ek, fname, v, v)}
+                    idx += 1
     r = rng_for(seed, shard, "c11")
     n = tier_pick(tier, 32000, 2500000) // nshards
     ws = ["", " ", "\n ", "  "]
@@ -74,7 +82,8 @@ def cases(tier, seed, shard, nshards):
             blocks.append("@%s{%s%s%s=%s%s%s}" % (r.choice(["string", "String", "STRING"]), r.choice(ws), k, r.choice(ws), r.choice(ws), v, r.choice(ws)))
         for e in range(ne):
             nf = r.randint(1, 4)
-            fn = r.sample(["f0", "f1", "f2", "month", "Month", "year", "author", "crossref"], nf)
+            # (reserved-looking field names too: the v1-compatibility accessor entry[key] special-cases them; seed C11-k)
+            fn = r.sample(["f0", "f1", "f2", "month", "Month", "year", "author", "crossref", "ID", "ENTRYTYPE", "key", "type", "id"], nf)
             fs = ",".join("%s%s%s=%s%s%s" % (r.choice(ws), fn[j], r.choice(ws), r.choice(ws), r.choice(vs), r.choice(ws)) for j in range(nf))
             blocks.append("@article{%s,%s%s}" % (["s", "k1", "t", "st"][e], fs, r.choice(["", ",", " , "])))
         if r.random() < .3:
